@@ -9,24 +9,25 @@ namespace C03W
 open World FloorCoreL C03
 
 /-- A step that only replaces the environment, keeping the clock and every attempt that matters. -/
-theorem G.envOnly {E N : List Nat} {w : World} (h : G E N w) (env' : Env)
+theorem G.envOnly {E N A : List Nat} {w : World} (h : G E N A w) (env' : Env)
     (hinv : C01.Inv env') (hnow : env'.now = w.env.now)
     (ha : ∀ n ∈ C02V.acts env', n ∈ C02V.acts w.env)
     (hatt : ∀ d p, holdsD (w.dev d) = some p → d ∉ E → Att w d → Att { w with env := env' } d) :
-    G E N { w with env := env' } := by
-  refine h.transfer rfl h.s1.2 hinv hnow
-    (evOK_of h.ev (fun d => rfl) (fun n hn => Or.inl (ha n hn))) h.valid
-    (fun p _ => ⟨rfl, rfl⟩) (fun y hy hacc => ⟨hy, hacc⟩) ?_
+    G E N A { w with env := env' } := by
+  refine h.transfer rfl h.pl hinv hnow
+    (evOK_of h.ev (fun d => rfl) (fun n hn => Or.inl (ha n hn))) h.valid h.kv h.stk
+    (h.wr.same rfl rfl (fun _ hy => hy)) h.aok
+    (fun n y hy hacc => ⟨hy, hacc⟩) ?_
   intro d p hdp hdE
-  exact Or.inr ⟨hdp, hdE, hatt d p hdp hdE, fun hf => Or.inl hf⟩
+  exact Or.inr ⟨hdp, hdE, rfl, hatt d p hdp hdE, fun hf => Or.inl hf⟩
 
 theorem envOp_eq (w : World) (op : EnvOp) :
     w.envOp op = { w with env := (w.env.apply Arith.exact op).1 } := rfl
 
 /-- Pausing the events of an asset id that no (non-exempt) holder has. -/
-theorem G.pause {E N : List Nat} {w : World} (h : G E N w) (a : Int)
+theorem G.pause {E N A : List Nat} {w : World} (h : G E N A w) (a : Int)
     (hno : ∀ d p, holdsD (w.dev d) = some p → d ∉ E → (w.dev d).aid ≠ a) :
-    G E N (w.envOp (.pause a)) := by
+    G E N A (w.envOp (.pause a)) := by
   rw [envOp_eq]
   refine h.envOnly _ (C01.inv_pause a h.inv) rfl (fun n hn => (C02V.acts_pause _ a n).mp hn) ?_
   intro d p hd hdE ⟨e, he, h1, h2, h3, h4⟩
@@ -35,9 +36,9 @@ theorem G.pause {E N : List Nat} {w : World} (h : G E N w) (a : Int)
   rw [C07.pause_withholds]
   exact ⟨he, by rw [h2]; exact hno d p hd hdE⟩
 
-theorem G.cancel {E N : List Nat} {w : World} (h : G E N w) (a : Int)
+theorem G.cancel {E N A : List Nat} {w : World} (h : G E N A w) (a : Int)
     (hno : ∀ d p, holdsD (w.dev d) = some p → d ∉ E → (w.dev d).aid ≠ a) :
-    G E N (w.envOp (.cancel a)) := by
+    G E N A (w.envOp (.cancel a)) := by
   rw [envOp_eq]
   refine h.envOnly _ (C01.inv_cancel a h.inv) rfl
     (fun n hn => by rw [show (w.env.apply Arith.exact (.cancel a)).1 = w.env.cancel a from rfl,
@@ -50,8 +51,8 @@ theorem G.cancel {E N : List Nat} {w : World} (h : G E N w) (a : Int)
   simp only [Env.cancel, List.mem_map]
   exact ⟨e, he, this⟩
 
-theorem G.unpause {E N : List Nat} {w : World} (h : G E N w) (a : Int) :
-    G E N (w.envOp (.unpause a)) := by
+theorem G.unpause {E N A : List Nat} {w : World} (h : G E N A w) (a : Int) :
+    G E N A (w.envOp (.unpause a)) := by
   rw [envOp_eq]
   refine h.envOnly _ (C01.inv_unpause Arith.exact a h.inv) rfl
     (fun n hn => (C02V.acts_unpause Arith.exact _ a n).mp hn) ?_
@@ -68,16 +69,17 @@ def exemptOf (e : Event) : List Nat :=
     | _ => []
   else []
 
-theorem wouldAcceptN_env (w : World) (env' : Env) (f : Nat) (N : List Nat) (y p : Nat) :
-    wouldAcceptN f { w with env := env' } N y p = wouldAcceptN f w N y p :=
-  wouldAcceptN_congr (w := w) (w' := { w with env := env' }) (fun _ => ⟨rfl, rfl, rfl⟩)
-    (fun _ => rfl) (fun _ => rfl) f y
+theorem wouldAcceptN_env (w : World) (env' : Env) (f : Nat) (N A : List Nat) (y p : Nat) :
+    wouldAcceptN f { w with env := env' } N A y p = wouldAcceptN f w N A y p :=
+  wouldAcceptN_congr (w := w) (w' := { w with env := env' })
+    ⟨fun _ => rfl, fun _ => rfl, fun _ => rfl, fun _ => rfl, rfl⟩
+    (fun _ => rfl) rfl (fun _ => rfl) f y
 
-theorem G.pop {w : World} (h : G [] [] w) {e : Event} {env' : Env}
-    (hst : w.env.step = some (e, env')) : G (exemptOf e) [] { w with env := env' } := by
+theorem G.pop {w : World} (h : G [] [] [] w) {e : Event} {env' : Env}
+    (hst : w.env.step = some (e, env')) : G (exemptOf e) [] [] { w with env := env' } := by
   have hclk := C01.step_clock h.inv hst
   obtain ⟨es, heq, rfl⟩ := Env.step_some.mp hst
-  refine ⟨h.s1, C01.inv_step h.inv hst, ?_, ?_, h.valid, ?_⟩
+  refine ⟨h.sc, h.pl, C01.inv_step h.inv hst, ?_, ?_, h.valid, h.kv, h.stk, h.wr, h.aok, ?_⟩
   · show 0 ≤ e.time
     have := hclk.2
     have h0 := h.now0
@@ -107,7 +109,7 @@ theorem G.pop {w : World} (h : G [] [] w) {e : Event} {env' : Env}
         exact dueD_mono hclk.2 _
     · refine Or.inr ⟨hb.1, fun y hy => ?_⟩
       rw [← hb.2 y hy]
-      exact wouldAcceptN_env w _ w.fuel [] y p
+      exact wouldAcceptN_env w _ w.fuel [] [] y p
 
 end C03W
 end SimProc
